@@ -2,8 +2,10 @@
 // conserved), C02 (unspent = created - spent, no double spend) and C04 (a block
 // is appended only if it extends the signed chain; rejected blocks are no-ops).
 //
-// A REAL visor.Visor (non-publisher, non-arbitrating: the configuration of every
-// node that receives blocks from the network) runs on a real bolt file. The
+// A REAL visor.Visor runs on a real bolt file, per history either as a follower
+// (non-publisher, non-arbitrating: the configuration of every node that receives
+// blocks from the network) or as an arbitrating block publisher (which filters
+// and re-orders the transactions of the blocks it is handed). The
 // harness holds the publisher key, builds histories of valid and semantically
 // mutated signed blocks, submits each through Visor.ExecuteSignedBlock and after
 // EVERY op dumps the projected observables. Hashes are interned to small ids
@@ -1142,7 +1144,7 @@ func run(args []string) error {
 	}
 	o.Def("cases_hist", "history", histNames)
 	o.Side["cases"] = map[string]interface{}{"ops": opsJSON}
-	o.Side["rule"] = "a case is one op (a signed block submitted to Visor.ExecuteSignedBlock of a real non-publisher node on a bolt file) of a generated history; distinct by (history, position, mutation kind, result, header hash); every op is counted: accepted blocks change the ledger, rejected ones exercise a distinct check"
+	o.Side["rule"] = "a case is one op (a signed block submitted to Visor.ExecuteSignedBlock of a real node on a bolt file: follower or arbitrating publisher configuration) of a generated history; distinct by (history, position, mutation kind, result, header hash); every op is counted: accepted blocks change the ledger, rejected ones exercise a distinct check"
 	o.Side["distribution"] = hist.Sorted()
 	o.Side["samples"] = samples
 	return o.Write(f.Out, f.JSON)
